@@ -30,7 +30,7 @@ def c12_concurrent(rep, tier):
         two = len(th) > 1
         scs.append({"kind": "handover", "threads": th, "pre": pre, "post": post, "dests": dests, "max_pre": 1 if (quick and two) else 2,
                     "cap": 120 if quick else 8000, "random": 30 if quick else 2000, "seed": rng.randint(0, 10 ** 9),
-                    "budget_s": 60 if quick else 400})
+                    "budget_s": 60 if quick else 240})
     results = run_scenarios(scs)
     hs = [(res["scenario"], h) for res in results for h in res["runs"]]
     acc, st = tlc_accepts("HandoverA", "HandoverA.cfg", [h for _, h in hs])
@@ -64,11 +64,11 @@ def c12_concurrent(rep, tier):
     # the same race with global fields set just before the first add(), and with a FULL buffer (the most recent 1000 are kept)
     full = list(range(100, 1100))
     scs = [{"kind": "handover_cap", "threads": {"L": [1, 2]}, "pre": [11, 12, 13], "dests": [1, 2], "gf": True, "max_pre": 2,
-            "cap": 150 if quick else 6000, "random": 30 if quick else 1500, "seed": rng.randint(0, 10 ** 9), "budget_s": 60 if quick else 300},
+            "cap": 150 if quick else 6000, "random": 30 if quick else 1500, "seed": rng.randint(0, 10 ** 9), "budget_s": 60 if quick else 180},
            {"kind": "handover_cap", "threads": {"L": [1]}, "pre": full, "dests": [1], "gf": True, "max_pre": 2, "early": True,
-            "cap": 20 if quick else 600, "random": 4 if quick else 300, "seed": rng.randint(0, 10 ** 9), "budget_s": 40 if quick else 400},
+            "cap": 20 if quick else 600, "random": 4 if quick else 300, "seed": rng.randint(0, 10 ** 9), "budget_s": 40 if quick else 240},
            {"kind": "handover_cap", "threads": {"L": [1]}, "pre": full[:999], "dests": [1], "gf": False, "max_pre": 1, "early": True,
-            "cap": 8 if quick else 300, "random": 2 if quick else 100, "seed": rng.randint(0, 10 ** 9), "budget_s": 30 if quick else 300}]
+            "cap": 8 if quick else 300, "random": 2 if quick else 100, "seed": rng.randint(0, 10 ** 9), "budget_s": 30 if quick else 150}]
     results = run_scenarios(scs)
     hs = [(res["scenario"], h) for res in results for h in res["runs"]]
     acc, st = tlc_accepts("HandoverCapA", "HandoverCapA.cfg", [{k: v for k, v in h.items() if k != "schedule"} for _, h in hs])
